@@ -352,7 +352,7 @@ fn main_c01(out: &Path, tier: &str, seed: u64) {
     let results = std::sync::Mutex::new(vec![]);
     std::thread::scope(|sc| {
         for _ in 0..threads.min(n_crates) {
-            sc.spawn(|| {
+            std::thread::Builder::new().stack_size(256 << 20).spawn_scoped(sc, || {
                 loop {
                     let i = next.fetch_add(1, std::sync::atomic::Ordering::SeqCst);
                     if i >= n_crates {
@@ -361,7 +361,8 @@ fn main_c01(out: &Path, tier: &str, seed: u64) {
                     let r = c01_crate(seed, i, n_progs, n_vecs, out);
                     results.lock().unwrap().push(r);
                 }
-            });
+            })
+            .expect("spawn");
         }
     });
     runs.extend(results.into_inner().unwrap());
